@@ -52,6 +52,7 @@ REQUIRED = {
     'sample-support': 40, 'square-support': 40, 'sample-unsert-null': 10,
     'lhs-struct': 40, 'lhs-balance': 40, 'rand-struct': 40,
     'rand-poi-struct': 40, 'tt-idx': 40, 'tt-layout': 40,
+    'long-support': 40,
 }
 REQUIRED_EVENTS = {'audit-multi-indices': 2000, 'square-unique-restart': 1,
     'unsert-null-rows-drawn': 1}
@@ -104,13 +105,74 @@ def gen_cases(seed, tier):
     for j in range(ns):
         out.append({'kind': 'struct', 'seed': int(rng.integers(1 << 62)),
             'big': bool(j % 4 == 0)})
+    for j in range(24 if quick else 600):
+        out.append({'kind': 'long', 'seed': int(rng.integers(1 << 62))})
     # interleave so that every shard gets both kinds and all families
     order = np.random.default_rng([seed, 77]).permutation(len(out))
     return [out[int(i)] for i in order]
 
 
+def run_long(case, ctx, teneva):
+    """Long thin tensors (50..70 binary / ternary modes: more than 2^53 and
+    up to 2^110 multi-indices) whose support is known in closed form: the
+    first index is carried through the chain and must equal the last one, so
+    every multi-index with i_0 != i_last has entry exactly 0.  Several
+    samples per call: a sampler that mixes up the states of different samples
+    returns rows outside the support."""
+    rng = np.random.default_rng(case['seed'])
+    nm = int(rng.integers(2, 4))
+    d = int(rng.integers(50, 71)) if nm == 2 else int(rng.integers(36, 50))
+    n = [nm] * d
+    Y = []
+    peaked = rng.random() < 0.7     # most samples share long stretches
+    for k in range(d):
+        w = rng.uniform(0.5, 1.5, size=nm)
+        if peaked and 0 < k < d - 1:
+            w = rng.uniform(0.03, 0.08, size=nm)
+            w[int(rng.integers(nm)) if rng.random() < 0.2 else nm - 1] = 1.
+        if k == 0:
+            G = np.zeros((1, nm, nm))
+            G[0, np.arange(nm), np.arange(nm)] = w
+        elif k == d - 1:
+            G = np.zeros((nm, nm, 1))
+            G[np.arange(nm), np.arange(nm), 0] = w
+        else:
+            G = np.einsum('ab,i->aib', np.eye(nm), w)
+            if rng.random() < 0.1:
+                G = G * rng.uniform(0.9, 1.1, size=nm)[:, None, None]
+        Y.append(G)
+    if rng.random() < 0.5:
+        # mixed-sign gauge for the squared sampler
+        for k in range(1, d):
+            sg = rng.choice([-1., 1.], size=nm)
+            Y[k - 1] = Y[k - 1] * sg[None, None, :]
+            Y[k] = Y[k] * sg[:, None, None]
+    m = int(rng.integers(50, 301))
+    seed = int(rng.integers(1 << 30))
+    for name, fn, kw in (('sample_square', teneva.sample_square,
+            {'unique': False}), ('sample_square', teneva.sample_square,
+            {'unique': True}), ('sample', teneva.sample, {})):
+        mm = m if kw.get('unique') is not True else min(m, 40)
+        I = call(ctx, 'long-support', fn, Y, mm, seed=seed if rng.random()
+            < 0.5 else np.random.default_rng(seed), **kw)
+        if I is None:
+            continue
+        why = index_array_ok(I, mm, n)
+        if not ctx.check('long-support', why is None, f'{name}(m={mm}, '
+                f'{kw}) on a tensor of shape [{nm}]*{d}: {why}'):
+            continue
+        bad = int(np.sum(I[:, 0] != I[:, -1]))
+        ctx.check('long-support', bad == 0, lambda: f'{name}(m={mm}, {kw}) on '
+            f'a tensor of shape [{nm}]*{d} (2^{d * np.log2(nm):.0f} '
+            f'multi-indices): {bad} of {mm} rows have i_0 != i_last, i.e. '
+            'entry exactly 0', first_bad=I[I[:, 0] != I[:, -1]][:1])
+    ctx.nontrivial(['long', nm, d])
+
+
 def run_case(case, ctx):
     import teneva
+    if case['kind'] == 'long':
+        return run_long(case, ctx, teneva)
     if case['kind'] == 'dist':
         run_dist(case, ctx, teneva)
     else:
@@ -778,6 +840,23 @@ def run_dist(case, ctx, teneva):
             ctx.check('square-support', bool(np.all(pr >= 1e-20)),
                 'sample_square(unique=True) returned a multi-index whose '
                 'entry is (numerically) zero', row=I[int(np.argmin(pr))], n=n)
+
+        # m = N distinct rows of a tensor with exact zeros do not exist: a
+        # ValueError is the documented outcome (few restarts requested, the
+        # default would take very long); rows of probability 0 never are
+        nz = int(np.sum(Pf <= 0))
+        if 0 < nz and N <= 80 and RQ.defined:
+            try:
+                I = teneva.sample_square(Y0, N, True, seed_obj(40), 5, 2)
+            except ValueError:
+                ctx.held('square-support')
+                ctx.event('square-unique-m=N-with-zeros-rejected')
+            else:
+                ok = index_array_ok(I, N, n) is None and bool(np.all(
+                    Pf[np.ravel_multi_index(tuple(np.asarray(I).T), n)] > 0))
+                ctx.check('square-support', ok, f'sample_square(m = N = {N}, '
+                    f'unique=True) on a tensor with {nz} exact zeros returned '
+                    'rows of probability 0 instead of raising ValueError')
 
     # ---- evidence: one written-out multi-index
     if RS.nonneg and RS.defined and RQ.defined:
